@@ -49,8 +49,12 @@ def oracle(c, d, kind, im):
     if len(set(names)) != len(names) and not broken:
         return 'a name is listed twice: %r' % names
     if d is not None and kind == 'doc':
+        # (without the glossaries package a .glsdefs file read by \\LTinput is
+        # plain text, the macros in its entries are then used in text)
+        nogls = '\\usepackage{glossaries}' not in c.latex
         got = [n for n in names if n in TRACKED
-               and not (c.nosp and n == '\\foo')]
+               and not (c.nosp and n == '\\foo')
+               and not (nogls and n in ('\\unkgl', '\\unkgd'))]
         want = expected(d, c.nosp)
         if got != want:
             return ('undeclared names used in text, in order of first use: %r; '
